@@ -99,13 +99,12 @@ impl VisitMut for OperationTransformVisitor<'_> {
                 assign.visit_mut_children_with(opv_with_child_ctx);
 
                 if assign.op == AssignOp::AddAssign {
-                    assign.map_with_mut(|mut assign| {
-                        let result =
-                            AssignAddTransform::to_dd_assign_expr(&mut assign, opv_with_child_ctx);
-                        opv_with_child_ctx
-                            .update_status(result.status, Some(ADD_ASSING_TAG.to_string()));
-                        result.expr.unwrap_or(assign)
-                    });
+                    let result = AssignAddTransform::to_dd_assign_expr(assign, opv_with_child_ctx);
+                    opv_with_child_ctx
+                        .update_status(result.status, Some(ADD_ASSING_TAG.to_string()));
+                    if let Some(new_expr) = result.expr {
+                        *expr = new_expr;
+                    }
                 }
             }
 
